@@ -378,7 +378,7 @@ pub fn case_strategy() -> impl Strategy<Value = BlockCase> {
         })
 }
 
-fn case_json(c: &BlockCase) -> Value {
+pub fn case_json(c: &BlockCase) -> Value {
     let r = render(c);
     json!({
         "folded": c.folded, "chomp": c.chomp, "explicit": c.explicit, "indicator_first": c.indicator_first, "header_comment": c.header_comment,
